@@ -27,6 +27,9 @@ pub struct TCase {
     pub source_has_id: bool,
     pub allow_simple: bool,
     pub by_index: Option<usize>,
+    /// the source is an existing annotation named in the configuration (existing_source_side + source_side_id)
+    pub existing_source: bool,
+    pub no_reseg: bool,
 }
 
 fn sel_s(v: &[(usize, usize, usize)]) -> String {
@@ -40,7 +43,7 @@ fn parse_sels(s: &str) -> Option<Vec<(usize, usize, usize)>> {
 impl TCase {
     pub fn line(&self) -> String {
         format!(
-            "tpcfg texts={} sides={} simple={} src={}:{} kind={} id={} allow_simple={} byindex={}",
+            "tpcfg texts={} sides={} simple={} src={}:{} kind={} id={} allow_simple={} byindex={} existing={} noreseg={}",
             self.texts.iter().map(|t| hex(t)).collect::<Vec<_>>().join(";"),
             self.sides.iter().map(|s| sel_s(s)).collect::<Vec<_>>().join("|"),
             self.simple as u8,
@@ -49,11 +52,13 @@ impl TCase {
             self.kind,
             self.source_has_id as u8,
             self.allow_simple as u8,
-            self.by_index.map(|x| x.to_string()).unwrap_or("-".into())
+            self.by_index.map(|x| x.to_string()).unwrap_or("-".into()),
+            self.existing_source as u8,
+            self.no_reseg as u8
         )
     }
     pub fn parse(line: &str) -> Option<TCase> {
-        let mut c = TCase { texts: vec![], sides: vec![], simple: false, src_res: 0, source: vec![], kind: 'T', source_has_id: true, allow_simple: false, by_index: None };
+        let mut c = TCase { texts: vec![], sides: vec![], simple: false, src_res: 0, source: vec![], kind: 'T', source_has_id: true, allow_simple: false, by_index: None, existing_source: false, no_reseg: false };
         for kv in line.split_whitespace().skip(1) {
             let (k, v) = kv.split_once('=')?;
             match k {
@@ -65,6 +70,8 @@ impl TCase {
                 "id" => c.source_has_id = v == "1",
                 "allow_simple" => c.allow_simple = v == "1",
                 "byindex" => c.by_index = v.parse().ok(),
+                "existing" => c.existing_source = v == "1",
+                "noreseg" => c.no_reseg = v == "1",
                 _ => {}
             }
         }
@@ -153,6 +160,9 @@ pub fn check_case(rep: &mut Report, case: &TCase) -> Option<(String, String)> {
         target_side_ids: (0..case.sides.len()).map(|i| format!("T{}", i)).collect(),
         allow_simple: case.allow_simple,
         source_side: match case.by_index { Some(i) => TranspositionSide::ByIndex(i), None => TranspositionSide::Auto },
+        existing_source_side: case.existing_source && case.source_has_id,
+        source_side_id: if case.existing_source && case.source_has_id { Some("src".into()) } else { None },
+        no_resegmentation: case.no_reseg,
         ..Default::default()
     };
     let res = guarded(std::panic::AssertUnwindSafe(|| {
@@ -341,6 +351,8 @@ pub fn gen_case(seed: u64, i: usize) -> TCase {
         source_has_id: rng.chance(75),
         allow_simple: rng.chance(20),
         by_index: if rng.chance(10) { Some(rng.below(nsides)) } else { None },
+        existing_source: rng.chance(35),
+        no_reseg: rng.chance(30),
     }
 }
 
